@@ -76,6 +76,8 @@ def run(tier):
     _expand.bcopy_rule(chk, 'C09.bcopy', _pg, 'tested')
     from ..rules import lints as _lints
     _lints.scratch_initialised_rule(chk, 'C09.scratch', _pg, 'tested')
+    chk.clause('C09.qsel', 'the scratch array handed to the quick-select of the secondary drop rule is filled for exactly the entries that are read')
+    _lints.qselect_input_rule(chk, 'C09.qsel', _pg, 'tested')
     from ..rules import misc as _misc
     chk.clause('C09.slot', 'a slot reserved for the fill position of an empty ILU column is written before the pivot search reads it')
     for _p in 'sdcz':
